@@ -362,6 +362,132 @@ fn check_set_no_block(run: &Run, base: &Node, u: &St, names: &[String], s: &[Tra
     }
 }
 
+/// DoscMint corner: two mints of different speed (each claiming its full reward under the previous block's record) and a
+/// normal transfer in one block - every subset, every order, as a batch, one at a time and through apply_block.
+fn doscmint_corner(run: &Run, pools: &[rayon::ThreadPool]) {
+    use crate::refstf::{ref_dosc_to_erg, ref_reward, Tip910Hash};
+    let scratch = Run::new("scratch", "quick");
+    let eng = Engine::new(&scratch);
+    let (_w, rootn) = root(NetID::Custom02, 0, false);
+    let open1 = match eng.step(&rootn, &Action::Open) {
+        StepOut::Next(x) => x,
+        _ => return,
+    };
+    let split = tx_t(TxKind::Normal, vec![melstructs::CoinID::zero_zero()], vec![out_t(400_000_000, Denom::Mel), out_t(300_000_000, Denom::Mel), out_t(300_000_000, Denom::Mel)], 0, vec![]);
+    let n1 = match eng.step(&open1, &Action::Batch { label: "split".into(), txs: vec![split.clone()], expect_ok: true }) {
+        StepOut::Next(x) => x,
+        _ => return,
+    };
+    let sealed1 = match eng.step(&n1, &Action::Seal(None)) {
+        StepOut::Next(x) => x,
+        _ => return,
+    };
+    let open2 = match eng.step(&sealed1, &Action::Open) {
+        StepOut::Next(x) => x,
+        _ => return,
+    };
+    let (u, p) = match (&open2.real, &sealed1.real) {
+        (Real::Open(u), Real::Sealed(p)) => (u.clone(), p.clone()),
+        _ => return,
+    };
+    let hdr1 = p.header();
+    let height = open2.model.height;
+    let mint = |i: u8, d: u32| -> Transaction {
+        let coin = split.output_coinid(i);
+        let pz = tmelcrypt::hash_keyed(hdr1.hash(), stdcode::serialize(&coin).unwrap());
+        let proof = melpow::Proof::generate(&pz, d as usize, Tip910Hash).to_bytes();
+        let speed = 100u128 * (1u128 << d); // age 1
+        let max = ref_dosc_to_erg(height, ref_reward(speed, hdr1.dosc_speed, d, true)).unwrap_or(0);
+        tx_t(TxKind::DoscMint, vec![coin], vec![out_t(split.outputs[i as usize].value.0, Denom::Mel), out_t(max, Denom::Erg)], 0, stdcode::serialize(&(d, proof)).unwrap())
+    };
+    let fast = mint(0, 14);
+    let slow = mint(1, 12);
+    let normal = tx_t(TxKind::Normal, vec![split.output_coinid(2)], vec![out_t(300_000_000, Denom::Mel)], 0, vec![7]);
+    let all = vec![("mint-fast(d=14,full reward)".to_string(), fast), ("mint-slow(d=12,full reward)".to_string(), slow), ("xfer".to_string(), normal)];
+    for mask in 1u32..8 {
+        let names: Vec<String> = (0..3).filter(|i| mask & (1 << i) != 0).map(|i| all[i].0.clone()).collect();
+        let s: Vec<Transaction> = (0..3).filter(|i| mask & (1 << i) != 0).map(|i| all[i].1.clone()).collect();
+        run.state();
+        check_set(run, &open2, &u, &p, &names, &s, pools);
+    }
+}
+
+/// Large batches: a payment chain of L transactions (each spends its predecessor's output) presented in a stated family of orders.
+/// Not all L! orders can be enumerated; the family (forward, reverse, evens-then-odds, rotations by every k in a boundary-dense set)
+/// contains, for every cut position, an order that puts a spender before its creator across that cut.
+fn large_batch_family(run: &Run, thorough: bool) {
+    let (_w, rootn) = root(NetID::Custom02, 0, false);
+    let scratch = Run::new("scratch", "quick");
+    let eng = Engine::new(&scratch);
+    let open = match eng.step(&rootn, &Action::Open) {
+        StepOut::Next(x) => x,
+        _ => return,
+    };
+    let (u, parent) = match (&open.real, &rootn.real) {
+        (Real::Open(u), Real::Sealed(p)) => (u.clone(), p.clone()),
+        _ => return,
+    };
+    for len in if thorough { vec![300usize, 1100, 2100] } else { vec![300usize, 1100] } {
+        let mut chain: Vec<Transaction> = vec![];
+        let mut prev = melstructs::CoinID::zero_zero();
+        for i in 0..len {
+            let t = tx_t(TxKind::Normal, vec![prev], vec![out_t(1_000_000_000, Denom::Mel)], 0, (i as u32).to_be_bytes().to_vec());
+            prev = t.output_coinid(0);
+            chain.push(t);
+        }
+        run.transition();
+        let reference = apply_as_batch(&u, &chain);
+        run.validated();
+        if !matches!(reference, Outcome::Accepted { .. }) {
+            run.violation("C03", "large-batch/forward-order-rejected".into(), format!("a payment chain of {} transactions in dependency order is not accepted as one batch", len), json!({"chain_length": len}));
+            continue;
+        }
+        let mut orders: Vec<(String, Vec<usize>)> = vec![("reverse".into(), (0..len).rev().collect()), ("evens-then-odds".into(), (0..len).filter(|i| i % 2 == 0).chain((0..len).filter(|i| i % 2 == 1)).collect())];
+        let mut ks: Vec<usize> = (1..=17).collect();
+        for b in [32usize, 64, 100, 128, 200, 250, 256, 500, 512, 1000, 1024, 2000, 2048] {
+            ks.extend([b - 1, b, b + 1]);
+        }
+        for k in ks {
+            if k < len {
+                orders.push((format!("rotate-{}", k), (k..len).chain(0..k).collect()));
+                orders.push((format!("reverse-rotate-{}", k), (0..len).rev().map(|i| (i + k) % len).collect()));
+            }
+        }
+        run.states_add(orders.len() as u64);
+        orders.par_iter().for_each(|(name, o)| {
+            let txs: Vec<Transaction> = o.iter().map(|i| chain[*i].clone()).collect();
+            run.transition();
+            let r = apply_as_batch(&u, &txs);
+            run.validated();
+            if r != reference {
+                let kind = if name.starts_with("reverse-rotate") { "reverse-rotate" } else if name.starts_with("rotate") { "rotate" } else { name.as_str() };
+                run.violation(
+                    "C03",
+                    format!("large-batch/order-dependent/{}/{}", diff_fields(&reference, &r), kind),
+                    format!("a payment chain of {} transactions presented in order '{}' gives a different result than in dependency order", len, name),
+                    json!({"chain_length": len, "order": name}),
+                );
+            } else {
+                run.outcome("large-batch:same");
+            }
+        });
+        // the block holding the chain is accepted whatever order its HashSet iterates in
+        if let Outcome::Accepted { none, .. } = &reference {
+            for round in 0..3 {
+                let hs: HashSet<Transaction> = chain.iter().cloned().collect();
+                let blk = Block { header: *none, transactions: hs, proposer_action: None };
+                run.transition();
+                let r = guard(|| parent.apply_block(&blk).map(|s| s.header()));
+                run.validated();
+                if !matches!(&r, Ok(Ok(h)) if h == none) {
+                    run.violation("C03", "large-batch/apply_block-rejects-honest-block".into(), format!("a block of a {}-transaction payment chain was not accepted (round {}): {:?}", len, round, r.map(|x| x.map(|_| ()).map_err(|e| e.to_string()))), json!({"chain_length": len}));
+                    break;
+                }
+            }
+        }
+    }
+}
+
 pub fn run(run: &Run) {
     let thorough = run.thorough();
     let max_set = if thorough { 4 } else { 3 };
@@ -402,6 +528,8 @@ pub fn run(run: &Run) {
         }
     }
     genesis_block_corner(run, &pools);
+    doscmint_corner(run, &pools);
+    large_batch_family(run, thorough);
     run.set("sets_checked", json!(total_sets));
     run.set("max_set_size_completed", json!(max_set));
     run.set("rayon_pool_sizes", json!(pool_sizes));
